@@ -207,6 +207,18 @@ fn precondition_label(spec: &LmSpec) -> &'static str {
     }
 }
 
+/// Structural precondition of a known finding: the model carries a finite number of magnitude >= 1e100.
+fn astronomical(spec: &LmSpec) -> bool {
+    let big = |f: f64| f.is_finite() && f.abs() >= 1e100;
+    spec.rows.iter().any(|r| r.a.iter().any(|c| big(*c)) || big(r.b))
+        || spec.obj.iter().any(|c| big(*c))
+        || spec.vars.iter().any(|(_, t)| match t {
+            VSpec::Real(lo, hi) => lo.is_some_and(big) || hi.is_some_and(big),
+            VSpec::NonNeg(lo, hi) => big(*lo) || hi.is_some_and(big),
+            _ => false,
+        })
+}
+
 fn relaxed_kind(lp: &Lp, eps: &Q) -> Option<&'static str> {
     solve_milp(&relax(lp, eps), 50_000).ok().map(|(a, _)| a.kind())
 }
@@ -368,6 +380,14 @@ impl Driver for C05 {
                     Outcome::Failed(kind, msg) => {
                         if solver == "clarabel" {
                             out.tag("clarabel:no-answer");
+                        } else if astronomical(spec) {
+                            // bound propagation that diverged on an infeasible source model publishes
+                            // bounds like 9e307; no float method decides such a model
+                            out.violation(
+                                "no-verdict-on-astronomically-scaled-model(|number|>=1e100)",
+                                &format!("{solver} ended with error kind {kind} on a model that contains a number of magnitude >= 1e100; the model is {tkind}"),
+                                detail(json!({"error_kind": kind, "message": msg})),
+                            );
                         } else {
                             let class: String = msg.chars().take_while(|c| !c.is_ascii_digit() && *c != ':').collect();
                             out.violation(
